@@ -143,12 +143,15 @@ class MlpEnc(nn.Module):
 
 def _cdn(c):
     n = int(np.prod(c["shape"]))
-    enc = None if c["encoder"] == "identity" else (LinEnc(3, 2 * n) if c["encoder"] == "linear" else MlpEnc(3, 2 * n))
+    if c["encoder"] == "image":
+        enc = nn.Sequential(nn.Flatten(), LinEnc(4, 2 * n))  # an image-shaped context [k, 2, 1, 2], flattened by the encoder
+    else:
+        enc = None if c["encoder"] == "identity" else (LinEnc(3, 2 * n) if c["encoder"] == "linear" else MlpEnc(3, 2 * n))
     return D.ConditionalDiagonalNormal(c["shape"], context_encoder=enc)
 
 
-reg(DSubject("ConditionalDiagonalNormal", {"shape": SHAPES, "encoder": ["identity", "linear", "mlp"]}, _cdn, lambda c: c["shape"],
-             ctx_shape=lambda c: (2 * int(np.prod(c["shape"])),) if c["encoder"] == "identity" else (3,), patterns=("init", "pat1"), has_mean=True, needs_context=True))
+reg(DSubject("ConditionalDiagonalNormal", {"shape": SHAPES, "encoder": ["identity", "linear", "mlp", "image"]}, _cdn, lambda c: c["shape"],
+             ctx_shape=lambda c: (2 * int(np.prod(c["shape"])),) if c["encoder"] == "identity" else ((2, 1, 2) if c["encoder"] == "image" else (3,)), patterns=("init", "pat1"), has_mean=True, needs_context=True))
 
 
 def _cib(c):
